@@ -10,8 +10,8 @@ from checks import sess_common as sc
 def run(rep, tier, replay):
     return run_family(rep, tier, replay, "C03", mix="steps",
                       probes=["text"],
-                      quick=dict(maxcmd=16, maxbps=2, ncands=3, nhist=10, signals=True),
-                      thorough=dict(maxcmd=20, maxbps=3, ncands=5, nhist=40, signals=True))
+                      quick=dict(maxcmd=16, maxbps=2, ncands=3, nhist=10, signals=True, frames=True),
+                      thorough=dict(maxcmd=20, maxbps=3, ncands=5, nhist=40, signals=True, frames=True))
 
 
 def pick_cands(p, n, rng):
@@ -57,7 +57,10 @@ def run_family(rep, tier, replay, prop, mix, probes, quick, thorough, by_kinds=F
     builds = [("1.89", 0, True)]
     if tier == "thorough":
         builds += [("1.95", 0, True), ("nightly", 0, True)]
-    for src in sc.puppet_list(tier, deep=(prop == "C05")):
+    plist = sc.puppet_list(tier, deep=(prop == "C05"))
+    if cfg.get("mixed"):
+        plist = plist + [sesslib.SESS_SRC / f"{n}.rs" for n in sc.PUPPETS_MIXED]
+    for src in plist:
         for b in builds:
             if src.stem in sc.PUPPETS_DEEP and b != builds[0]:
                 continue                       # one build of the long execution is enough
@@ -65,21 +68,38 @@ def run_family(rep, tier, replay, prop, mix, probes, quick, thorough, by_kinds=F
             p.lifecycle = bool(cfg.get("lifecycle"))
             p.signals = bool(cfg.get("signals"))
             p.extras = bool(cfg.get("extras"))
+            p.frames = bool(cfg.get("frames"))
             if p.ambiguous:
                 raise vlib.ToolError(f"{p.key}: {p.ambiguous} (pc, TICK) pairs are not unique; stops cannot be identified")
             cands = pick_cands(p, cfg["ncands"], rng)
+            pmix = mix
+            if src.stem in sc.PUPPETS_MIXED:
+                # Rust + C (CFI of the C functions in .debug_frame only): stops in Rust callbacks called from C
+                # and inside the C functions themselves; run/breakpoint commands only (the reference's line
+                # annotation covers the Rust source alone, so step commands are not judged here)
+                cands |= c_return_addrs(p)
+                pmix = "bps"
             r = sc.model_check(p, set(sorted(cands)[:4]), min(cfg["maxcmd"], 5), min(cfg["maxbps"], 2))   # exhaustive leg: small bounds
             states += r.distinct
             trans += r.generated
             if prop == "C03" and b == builds[0]:
                 predictions[p.key] = sc.design_prediction(p, cands, 8, 1)
-            hists, npairs = sc.gen_histories(p, cands, cfg["maxcmd"], cfg["maxbps"], cfg["nhist"], vlib.seed(), mix,
+            hists, npairs = sc.gen_histories(p, cands, cfg["maxcmd"], cfg["maxbps"], cfg["nhist"], vlib.seed(), pmix,
                                              maxbk=cfg.get("maxbk", 3))
-            if cfg.get("also_mixed"):
+            if cfg.get("also_mixed") and pmix == mix:
                 h2, n2 = sc.gen_histories(p, cands, cfg["maxcmd"], cfg["maxbps"], cfg["also_mixed"], vlib.seed() + 1, "all",
                                           maxbk=cfg.get("maxbk", 3))
                 hists += h2
                 npairs += n2
+            if cfg.get("also_adjacent"):
+                # breakpoints on neighbouring instructions (their patched words overlap): both orders of
+                # setting, removing and hitting them
+                adj = adjacent_cands(p, cands)
+                if adj:
+                    h3, n3 = sc.gen_histories(p, adj, cfg["maxcmd"], 2, cfg["also_adjacent"], vlib.seed() + 2, "adjacent",
+                                              maxbk=cfg.get("maxbk", 3))
+                    hists += h3
+                    npairs += n3
             pairs_covered += npairs
             if not hists:
                 raise vlib.ToolError(f"{p.key}: TLC generated no usable history")
@@ -132,6 +152,33 @@ def attach_variant(p, scr):
     s2["cmds"] = cmds
     s2["attach"] = True
     return s2
+
+
+def c_return_addrs(p, n=2):
+    """Return addresses inside the puppet's C functions (taken from the reference call stacks): stops
+    there have the C function as innermost frame."""
+    cf = [(lo, hi) for name, lo, hi in p.funcs if name.startswith(p.crate + "_c_")]
+    res = []
+    for st in p.stacks:
+        for a in st:
+            if any(lo <= a < hi for lo, hi in cf) and a not in res:
+                res.append(a)
+    return set(res[:n])
+
+
+def adjacent_cands(p, cands):
+    """A candidate address that is reached more than once, plus the address of the instruction executed
+    right after it when that lies less than 8 bytes further (same function, no call in between)."""
+    count = {}
+    for x in p.X:
+        count[x["pc"]] = count.get(x["pc"], 0) + 1
+    for a in sorted(cands, key=lambda a: -count.get(a, 0)):
+        for j in range(len(p.X) - 1):
+            x, y = p.X[j], p.X[j + 1]
+            if x["pc"] == a and not x["ext"] and y["fn"] == x["fn"] and y["d"] == x["d"] and 0 < y["pc"] - a < 8 \
+                    and j + 1 < p.tail:
+                return {a, y["pc"]}
+    return set()
 
 
 def by_map(p, cands, k):
